@@ -345,7 +345,7 @@ class Tr:
                 tgt = st.target if isinstance(st, ast.AnnAssign) else st.targets[0]
                 if ast.unparse(tgt) != "mri_transforms" or started:
                     raise Untranslatable(f"unexpected assignment `{ast.unparse(st)[:60]}`")
-                segs.append(self.stage_list(st.value))
+                segs.append((None, self.stage_items(st.value)))
                 started = True
                 continue
             if isinstance(st, ast.Return):
@@ -355,30 +355,30 @@ class Tr:
             segs.append(self.segment(st))
         if not started:
             raise Untranslatable("`mri_transforms = [...]` not found")
-        return "\n  ++ ".join(segs)
+        return nf(segs)
 
-    def stage_list(self, node: ast.AST, **kw) -> str:
+    def stage_items(self, node: ast.AST) -> list[str]:
         if not isinstance(node, ast.List):
             raise Untranslatable(f"not a list of transforms: `{ast.unparse(node)[:60]}`")
-        return "[" + ", ".join(self.stage(e, **kw) for e in node.elts) + "]"
+        return [self.stage(e) for e in node.elts]
 
-    def addition(self, st: ast.stmt) -> str:
-        """`mri_transforms += [...]` or `mri_transforms.append(x)` -> Lean list"""
+    def addition(self, st: ast.stmt) -> list[str]:
+        """`mri_transforms += [...]` or `mri_transforms.append(x)` -> Lean stage terms"""
         if isinstance(st, ast.AugAssign) and isinstance(st.op, ast.Add) and ast.unparse(st.target) == "mri_transforms":
-            return self.stage_list(st.value)
+            return self.stage_items(st.value)
         if (isinstance(st, ast.Expr) and isinstance(st.value, ast.Call)
                 and ast.unparse(st.value.func) == "mri_transforms.append" and len(st.value.args) == 1):
-            return "[" + self.stage(st.value.args[0]) + "]"
+            return [self.stage(st.value.args[0])]
         raise Untranslatable(f"statement `{ast.unparse(st)[:70]}`")
 
-    def segment(self, st: ast.stmt) -> str:
+    def segment(self, st: ast.stmt):
+        """(guard or None, stages)"""
         if isinstance(st, ast.If):
             if st.orelse:
                 raise Untranslatable("if/else around transforms")
-            parts = [self.addition(s) for s in st.body]
-            body = parts[0] if len(parts) == 1 else "(" + " ++ ".join(parts) + ")"
-            return f"opt {self.flag(st.test)} {body}"
-        return self.addition(st)
+            items = [x for s_ in st.body for x in self.addition(s_)]
+            return (self.flag(st.test), items)
+        return (None, self.addition(st))
 
     def build_outer(self) -> str:
         fn = find_function(self.tree, "build_mri_transforms")
@@ -439,16 +439,16 @@ class Tr:
                 if ast.unparse(st.value) != "Compose(mri_transforms)":
                     raise Untranslatable("unexpected return")
                 break
-            seg = self.outer_addition(st, splitter_kwargs)
-            (tail if tail_guard is not None else out_segs).append(seg)
+            items = self.outer_addition(st, splitter_kwargs)
+            if tail_guard is not None:
+                tail.extend(items)
+            else:
+                out_segs.append((None, items))
         if inner is None:
             raise Untranslatable("inner call not found")
-        res = inner
-        for s in out_segs:
-            res += "\n  ++ " + s
         if tail_guard is not None:
-            res += f"\n  ++ opt {tail_guard}\n      (" + "\n       ++ ".join(tail) + ")"
-        return res
+            out_segs.append((tail_guard, tail))
+        return inner + "\n  ++ (" + nf(out_segs) + ")"
 
     def outer_addition(self, st: ast.stmt, splitter_kwargs) -> str:
         if not (isinstance(st, ast.AugAssign) and isinstance(st.op, ast.Add) and ast.unparse(st.target) == "mri_transforms"
@@ -460,7 +460,7 @@ class Tr:
                 items.append(self.splitter(e, splitter_kwargs))
             else:
                 items.append(self.stage(e))
-        return "[" + ", ".join(items) + "]"
+        return items
 
     def splitter(self, e: ast.IfExp, kwargs) -> str:
         """GaussianMaskSplitter(**kw, …) if type == GAUSSIAN else (Uniform… if type == UNIFORM else Half…)"""
@@ -495,14 +495,27 @@ class Tr:
                 raise Untranslatable(f"{cls} overrides {k.arg}")
 
 
+def nf(segs) -> str:
+    """list normal form, independent of how unconditional additions are grouped into statements:
+    unconditional stages are `::` cells, guarded ones `opt guard [...] ++ rest`"""
+    out = "[]"
+    for guard, items in reversed(segs):
+        if guard is None:
+            for it in reversed(items):
+                out = f"{it} ::\n  ({out})" if out != "[]" else f"{it} :: []"
+        else:
+            out = f"opt {guard} [{', '.join(items)}] ++\n  ({out})"
+    return out
+
+
 FALLBACK = """/-- SKIPPED ({reason}); stands for the hand-written model, the bridge is vacuous -/
 def zero_padding_threshold : ThrPred := thrCurrent
 def maskSeed (useSeed : Bool) : Option (List SeedField) := seedOf useSeed [.filename]
 def bodySeed (useSeed : Bool) : Option (List SeedField) := seedOf useSeed [.filename]
 def splitSeed (useSeed : Bool) : Option (List SeedField) := seedOf useSeed [.filename, .sliceNo]
 def crop_seed_fields : List SeedField := [.filename]
-def build_supervised (c : Config) : List Stage := Pipeline.buildSupervised c
-def build (c : Config) : List Stage := Pipeline.build c
+def build_supervised (c : Config) : List Stage := Pipeline.buildSupervisedNF c
+def build (c : Config) : List Stage := Pipeline.buildNF c
 """
 
 
@@ -553,5 +566,5 @@ from ..gen import Kernel, register  # noqa: E402
 
 register("C08", [
     Kernel("builder_flags", MT, "build_supervised_mri_transforms", [], "(32 : Int)",
-           lambda k, fn: f"def {k.name} : Int := ({len(fn.args.args)} : Int)\n", imports=("DirectVerif.Model.Pipeline",)),
+           lambda k, fn: f"def {k.name} : Int := ({len(fn.args.args)} : Int)\n", imports=("DirectVerif.Model.Pipeline", "DirectVerif.Lemmas.C08NF")),
 ])
